@@ -3,15 +3,15 @@ CONSTANTS
   Senders = {s1}
   Receivers = {r1}
   Closers = {}
-  Cap = 0
+  Cap = 1
   MaxOps = 2
   SpinMax = 1
   MaxSpur = 1
   MaxWaits = 2
-  SMenu = {"send", "try_send"}
-  RMenu = {"recv", "close"}
+  SMenu = {"send_to", "send"}
+  RMenu = {"recv_to", "close"}
   Wk <- Wk1
-  MaxNow = 0
+  MaxNow = 2
   FIX = TRUE
 INVARIANTS DisconnectShape NoStuck
 PROPERTIES Completes ReleasedReturns
